@@ -3,6 +3,7 @@
 //! (a) exhibits a concrete failing input for an obligation the verifier failed to discharge, and
 //! (b) checks, on every run, the stated assumptions about external code (logos) on enumerated inputs.
 mod lexer;
+mod host;
 mod roles;
 mod front;
 mod numeric;
@@ -18,7 +19,9 @@ fn main() {
         | "lexer-replay" => lexer::replay(rest),
         | "front-witness" => front::witness(rest),
         | "front-replay" => front::replay(rest),
+        | "span-witness" => front::span_witness(rest),
         | "front-a3" => front::assumption_a3(rest),
+        | "host-witness" => host::witness(rest),
         | "roles-witness" => roles::witness(rest),
         | "roles-replay" => roles::replay(rest),
         | "numeric-witness" => numeric::witness(rest),
